@@ -16,7 +16,8 @@ CHECKS = {
  "C02": ("UID monotonicity / no reuse / UIDNEXT above all / APPENDUID+COPYUID honesty / UIDVALIDITY freshness as action "
          "properties on the model and on traces that include restarts, pack, rename, delete+create.", "3 C02", MAIL_NOTE, MAIL_TECH),
  "C03": ("(UIDVALIDITY, UID) -> message identity and internal date preserved across every step (expunge, pack, "
-         "rename, restart, deliveries); position/uid/key/file bijection at every command boundary.", "3 C03", MAIL_NOTE, MAIL_TECH),
+         "rename, restart, deliveries), RENAME INBOX moves every message with flags and internal date; position/uid/key/file "
+         "bijection at every command boundary.", "3 C03", MAIL_NOTE, MAIL_TECH),
  "C04": ("RFC 3501 STORE semantics per message, implicit \\Seen, \\Recent not settable, Seen/unseen complement, issuer "
          "told, other sessions told or queued, sync point flushes; aggregates told by SELECT/EXAMINE/STATUS (EXISTS, RECENT, UNSEEN, first unseen) and "
          "SEARCH by flag keys agree with the flags; on the model exhaustively (bounded) and on traces.", "3 C04", MAIL_NOTE, MAIL_TECH),
